@@ -1392,6 +1392,13 @@ func (fr *Frame) loopCut(li *loopInfo, cur *State, phiVals map[*ssa.Phi]Val) {
 	for _, n := range autoFrame {
 		cur.heaps[n] = e.heap(fr.entry, n, e.heapSorts[n])
 	}
+	// the call log (called(F), arg, ret, argsum, retsum) of every layer function the loop body may call is unknown
+	// at the head of an arbitrary iteration
+	{
+		lh := map[string]string{}
+		fr.loopLogHeaps(fr.fn, li.blocks, 0, lh, map[*ssa.Function]bool{})
+		e.havocLogHeaps(cur, lh)
+	}
 	{
 		nt := e.vc.fresh("top", "Int")
 		e.vc.assume(app(">=", nt, topEntry))
